@@ -344,6 +344,14 @@ let run_history (lines : string list) =
          | RKeys (Ok ks) -> emit ("r ok " ^ String.concat " " (List.map tok_of_key ks))
          | RKeys r -> emit ("r " ^ cls_res r)
          | RPanic -> emit "r panic" | RCrash -> emit "r crash" | _ -> emit "r ?")
+    | [ ("flush1" | "flush1c"); r ] ->
+        let (u, o) = parse_rec r in
+        unit_line (do_step (OFlushOne (n_of_int u, o, List.hd t = "flush1c")))
+    | [ "expects"; sid; n; z ] ->
+        (match do_step (OExpects (n_of_int (int_of_string sid), z_of_int (int_of_string n), z = "1")) with
+         | RSearch (Some e, _) -> emit (Printf.sprintf "r %s 0" (rd (cls e)))
+         | RSearch (None, n) -> emit (Printf.sprintf "r ok %s" (string_of_z n))
+         | RPanic -> emit "r panic" | RCrash -> emit "r crash" | _ -> emit "r ?")
     | [ "commit" ] -> unit_line (do_step OCommit)
     | [ "flushall" ] -> unit_line (do_step OFlushAll)
     | [ "flushallc" ] -> unit_line (do_step OFlushAllCommit)
